@@ -17,6 +17,12 @@ RULE = ('include trees (depth<=4, fan-out<=3, a file included twice) with confli
         'cleared config; the returned ParsedConfigFileIncludesAndImports mirrors the tree; a search model (locations outer, readers inner, cwd first, '
         'absolute bypasses) predicts which copy is read; missing -> IOError naming the file and the searched locations, store == prefix; '
         'parse_config_files_and_bindings = files in order, then bindings, then finalize unless told not to; unknown names raise unless skip_unknown. '
+        'Extension: the multi-file entry point with its file argument as list / tuple / one file / None / [], a second file that is itself searched '
+        'through the (location, reader) cells or missing, the unknown name placed in the second file or in the extra bindings, skip_unknown left at '
+        'its DEFAULT on every entry point, a finalize hook recording the configuration it is shown (run exactly once, after files and extra bindings), '
+        'package-relative names that also exist as plain files / in registered readers (built-in reader order), readers registered through the '
+        'decorator form, print_includes_and_imports=True, own imports of the text given to parse_config, a missing absolute name (no location is '
+        'tried or named), and an independent last-writer model of the store over the generated statements. '
         'distinct = (tree shape, cell placement pattern, #locations, #readers, entry point)')
 TIERS = {
     'quick': {'workers': 8, 'cases': 750, 'timeout': 600},
@@ -26,7 +32,16 @@ REQUIRED_BUCKETS = ['search:package-moved-on-python-path', 'search:namespace-dir
                     'search:first-location-wins', 'search:later-location', 'search:reader-order-decides', 'search:memory-reader', 'search:absolute-name',
                     'search:package-slash', 'search:package-dot', 'missing:include', 'missing:top-level', 'imports:per-file', 'entry:parse_config_file',
                     'entry:files_and_bindings', 'entry:parse_config-with-include', 'finalize:true', 'finalize:false', 'finalize:default', 'extra-bindings:none', 'extra-bindings:empty-list', 'extra-bindings:empty-string', 'extra-bindings:string', 'unknown:raises', 'unknown:skipped', 'unknown:skipped-by-list', 'unknown:in-included-file', 'unknown:raises-not-in-list',
-                    'locations:3+', 'readers:2']
+                    'locations:3+', 'readers:2',
+                    # ---- extension wave (audit gaps 1-9)
+                    'unknown:raises-by-default:parse_config_file', 'unknown:raises-by-default:files_and_bindings', 'unknown:raises-by-default:parse_config-with-include',
+                    'unknown:in-second-file:raises', 'unknown:in-second-file:skipped', 'unknown:in-extra-bindings:raises', 'unknown:in-extra-bindings:skipped',
+                    'finalize:hook-saw-files-and-extra-bindings', 'finalize:hook-not-run-when-told-not-to',
+                    'files-arg:two', 'files-arg:two-tuple', 'files-arg:one', 'files-arg:none', 'files-arg:empty-list', 'missing:second-file',
+                    'second-file:later-location', 'second-file:memory-reader',
+                    'search:plain-file-before-package-reader', 'search:package-reader-before-later-location', 'search:package-reader-before-registered-reader',
+                    'readers:decorator-form', 'print-flag:parse_config_file', 'print-flag:files_and_bindings',
+                    'search:absolute-missing-with-locations', 'text:own-imports', 'model:last-writer-overrides-across-files']
 ORACLE_COUNTERS = ['oracle_evals', 'trees_compared', 'flattened_compared']
 _S = {}
 
@@ -53,6 +68,16 @@ def setup(ctx):
     raise core.Inconclusive('search-location / reader lists not found in gin.config')
   _S['base_readers'] = list(gc._FILE_READERS[:2])
   _S['n'] = 0
+  # One finalize hook for the life of this worker (hooks can only be added through the public API): while armed it records the configuration
+  # it is shown. It returns None, so it never changes the configuration.
+  _S['hook_on'] = False
+  _S['hook_seen'] = []
+
+  def c14_finalize_hook(config):
+    if _S['hook_on']:
+      _S['hook_seen'].append({k: {a: canon(v) for a, v in d.items()} for k, d in config.items() if d})
+    return None
+  gc.register_finalize_hook(c14_finalize_hook)
 
 
 def finish(ctx):
@@ -69,7 +94,7 @@ def gen_file(rng, fid, depth, maxdepth, state):
     if r < 0.5:
       stmts.append(['bind', rng.choice(['a', 'b', 'c']), '%s:%d' % (fid, len(stmts))])
     elif r < 0.6:
-      stmts.append(['import', rng.choice(['os', 'json', 'string', 'os.path', 'collections.abc'])])
+      stmts.append(['import', rng.choice(MODS)])
     elif depth < maxdepth and nchild < 3 and state['count'] < 7:
       own = [st[1] for st in stmts if st[0] == 'include']
       if own and rng.random() < 0.3:
@@ -106,21 +131,73 @@ def iter_cases(ctx, rng, n):
     state['files'][0] = top
     nloc = rng.choice([0, 1, 2, 3])
     nread = rng.choice([0, 1, 2])
+    files = {str(k): v for k, v in state['files'].items()}
+    entry = rng.choice(['parse_config_file', 'files_and_bindings', 'parse_config-with-include'])
+    extra = rng.choice(['list', 'list', 'none', 'empty-list', 'empty-string', 'string', 'tuple'])
+    # the shape of the multi-file entry point's first argument; 'S' is the second file: searched like every other file
+    shape = rng.choice(['two', 'two', 'two', 'two', 'two-tuple', 'one', 'none', 'empty-list']) if entry == 'files_and_bindings' else None
+    if shape in ('two', 'two-tuple'):
+      stmts = [['bind', 'a', 'S:0'], ['bind', 'c', 'S:1']]
+      if rng.random() < 0.3:
+        stmts.insert(rng.randrange(3), ['import', rng.choice(MODS)])
+      if len(files) > 1 and rng.random() < 0.2:
+        stmts.insert(rng.randrange(len(stmts) + 1), ['include', rng.choice(sorted(state['files'])[1:])])
+      files['S'] = {'id': 'S', 'kind': rng.choice(['rel', 'rel', 'rel', 'subdir', 'abs']), 'stmts': stmts}
     cells = [(l, r) for l in range(nloc + 1) for r in (['fs'] + ['mem%d' % k for k in range(nread)])]
     place = {}
-    for fid, f in state['files'].items():
-      if f['kind'] in ('abs', 'pkg-slash', 'pkg-dot'):
+    for fid, f in files.items():
+      if f['kind'] == 'abs':
         place[fid] = ['special']
+      elif f['kind'] in ('pkg-slash', 'pkg-dot'):
+        # always in the package; sometimes ALSO as a plain file / in a registered reader under the very same name
+        place[fid] = [[0, 'pkg']] + ([list(c) for c in rng.sample(cells, rng.randrange(1, len(cells) + 1))] if rng.random() < 0.5 else [])
       else:
         place[fid] = [list(c) for c in rng.sample(cells, rng.randrange(1, len(cells) + 1))]
+    tree_parsed = shape not in ('none', 'empty-list')
     missing = None
-    if rng.random() < 0.3:
-      missing = rng.choice(sorted(state['files']))
-    yield {'files': {str(k): v for k, v in state['files'].items()}, 'nloc': nloc, 'nread': nread, 'place': {str(k): v for k, v in place.items()},
-           'missing': missing, 'entry': rng.choice(['parse_config_file', 'files_and_bindings', 'parse_config-with-include']),
-           'finalize': rng.random() < 0.5, 'unknown': rng.choice([None, None, 'raise', 'skip', 'skip-list', 'list-without-it']),
-           'unknown_in': str(rng.choice(sorted(state['files']))), 'twice': state['twice'], 'same_text_twice': state['same_text_twice'],
-           'extra': rng.choice(['list', 'list', 'none', 'empty-list', 'empty-string', 'string']), 'finalize_default': rng.random() < 0.3}
+    if tree_parsed and rng.random() < 0.3:
+      missing = rng.choice(sorted(files))
+    unknown = rng.choice([None, None, 'raise', 'skip', 'skip-list', 'list-without-it'])
+    holders = (sorted(k for k in files if k != 'S') if tree_parsed else []) + (['S', 'S'] if 'S' in files else [])
+    if entry == 'files_and_bindings' and extra in ('list', 'string', 'tuple'):
+      holders += ['X', 'X']                            # 'X': the unknown name is one of the extra bindings
+    if not holders:
+      unknown = None
+    yield {'files': files, 'nloc': nloc, 'nread': nread, 'place': place,
+           'missing': missing, 'entry': entry, 'shape': shape,
+           'finalize': rng.random() < 0.5, 'unknown': unknown,
+           'unknown_in': rng.choice(holders) if holders else '0', 'twice': state['twice'], 'same_text_twice': state['same_text_twice'],
+           'extra': extra, 'finalize_default': rng.random() < 0.3,
+           'skip_arg': 'default' if rng.random() < 0.6 else 'explicit',           # honoured when nothing is to be skipped: then the argument is left out
+           'print': rng.random() < 0.3, 'decorator': [rng.random() < 0.4 for _ in range(nread)],
+           'text_imports': [rng.sample(MODS, rng.choice([0, 0, 1, 2])), rng.sample(MODS, rng.choice([0, 0, 1, 2]))]}
+
+
+MODS = ['os', 'json', 'string', 'os.path', 'collections.abc']
+EXTRA_OPS = {
+    'list': [('bind', 'c14f', 'c', 'X:0')],
+    'tuple': [('bind', 'c14f', 'b', 'X:0'), ('bind', 'c14f', 'c', 'X:1')],
+    'string': [('bind', 'c14f', 'b', 'X:0'), ('bind', 'c14f', 'b', 'X:1'), ('bind', 'c14f', 'c', 'X:2')],
+    'none': [], 'empty-list': [], 'empty-string': [],
+}
+UNKNOWN_LINE = 'c14_unknown_configurable.x = 1'
+
+
+def line_of(op):
+  if op[0] == 'bind':
+    return "%s.%s = '%s'" % op[1:]
+  if op[0] == 'import':
+    return 'import %s' % op[1]
+  return UNKNOWN_LINE
+
+
+def model_store(ops):
+  """The independent reference: the last writer of every (configurable, parameter) in application order. (An unknown name binds nothing.)"""
+  st = {}
+  for op in ops:
+    if op[0] == 'bind':
+      st.setdefault(('', 'c14.' + op[1]), {})[op[2]] = canon(op[3])
+  return st
 
 
 class World:
@@ -144,18 +221,25 @@ class World:
       gin.add_config_file_search_path(d)
       self.locs.append(d)
     self.mem = []
+    self.asked = []            # per in-memory reader: the paths its existence check was asked for, in order
     for k in range(case['nread']):
       table = {}
+      asked = []
       self.mem.append(table)
+      self.asked.append(asked)
 
       def reader(path, table=table):
         f = io.StringIO(table[path])
         f.name = path
         return f
 
-      def exists(path, table=table):
+      def exists(path, table=table, asked=asked):
+        asked.append(path)
         return path in table
-      gc.register_file_reader(reader, exists)
+      if case['decorator'][k]:
+        gc.register_file_reader(exists)(reader)        # the decorator form: @register_file_reader(exists_fn)
+      else:
+        gc.register_file_reader(reader, exists)
     self.names = {}
     self.pkgfiles = []
     for fid, f in case['files'].items():
@@ -173,6 +257,9 @@ class World:
       return '%s/sub/f%s_%d.gin' % (_S['pkg'], fid, _S['n'])
     return '%s.sub/f%s_%d.gin' % (_S['pkg'], fid, _S['n'])
 
+  def holds_unknown(self, fid):
+    return bool(self.case['unknown']) and fid == self.case['unknown_in']
+
   def text_of(self, fid, cell):
     f = self.case['files'][fid]
     lines = ["c14who.f%s = '%s'" % (fid, cell)]
@@ -183,8 +270,8 @@ class World:
         lines.append('import %s' % st[1])
       else:
         lines.append("include '%s'" % self.names[str(st[1])])
-    if self.case['unknown'] and fid == self.case.get('unknown_in', '0'):
-      lines.append('c14_unknown_configurable.x = 1')
+    if self.holds_unknown(fid):
+      lines.append(UNKNOWN_LINE)
     return '\n'.join(lines) + '\n'
 
   def materialise(self):
@@ -195,55 +282,84 @@ class World:
       if f['kind'] == 'abs':
         os.makedirs(os.path.dirname(name), exist_ok=True)
         open(name, 'w').write(self.text_of(fid, 'abs'))
-      elif f['kind'] in ('pkg-slash', 'pkg-dot'):
-        p = os.path.join(_S['root'], 'py', _S['pkg'], 'sub', os.path.basename(name))
-        open(p, 'w').write(self.text_of(fid, 'pkg'))
-        self.pkgfiles.append(p)
-      else:
-        for (l, r) in self.case['place'][fid]:
-          cell = 'L%d/%s' % (l, r)
-          path = os.path.join(self.locs[l], name)
-          if r == 'fs':
-            full = path if l else os.path.join(self.cwd, name)
-            os.makedirs(os.path.dirname(full), exist_ok=True)
-            open(full, 'w').write(self.text_of(fid, cell))
-          else:
-            self.mem[int(r[3:])][path] = self.text_of(fid, cell)
+        continue
+      for (l, r) in self.case['place'][fid]:
+        cell = 'L%d/%s' % (l, r)
+        path = os.path.join(self.locs[l], name)
+        if r == 'pkg':
+          p = os.path.join(_S['root'], 'py', _S['pkg'], 'sub', os.path.basename(name))
+          open(p, 'w').write(self.text_of(fid, cell))
+          self.pkgfiles.append(p)
+        elif r == 'fs':
+          full = path if l else os.path.join(self.cwd, name)
+          os.makedirs(os.path.dirname(full), exist_ok=True)
+          open(full, 'w').write(self.text_of(fid, cell))
+        else:
+          self.mem[int(r[3:])][path] = self.text_of(fid, cell)
+
+  def readers_at(self, l):
+    """Reader order within a location: plain open, the package reader (both registered by gin itself, in this order), then the registered
+    readers in order. A package-relative name only means something to the package reader when no location prefix is in front of it."""
+    return ['fs'] + (['pkg'] if l == 0 else []) + ['mem%d' % k for k in range(self.case['nread'])]
 
   def chosen_cell(self, fid):
-    """The search model: locations outer (cwd first), readers inner (fs, package reader, then registered readers in order)."""
+    """The search model: locations outer (cwd first), readers inner."""
     f = self.case['files'][fid]
     if self.case['missing'] is not None and str(self.case['missing']) == fid:
       return None
     if f['kind'] == 'abs':
       return 'abs'
-    if f['kind'] in ('pkg-slash', 'pkg-dot'):
-      return 'pkg'
     cells = [tuple(c) for c in self.case['place'][fid]]
     for l in range(self.case['nloc'] + 1):
-      for r in ['fs'] + ['mem%d' % k for k in range(self.case['nread'])]:
+      for r in self.readers_at(l):
         if (l, r) in cells:
           return 'L%d/%s' % (l, r)
     return None
 
-  def flatten(self, fid, out, stop):
-    """Flattened text in application order; stops at the first unreadable file (returns False)."""
+  def ops_file(self, fid, out):
+    """The statements in application order (include = in place); stops at the first unreadable file (returns False)."""
     cell = self.chosen_cell(fid)
     if cell is None:
       return False
     f = self.case['files'][fid]
-    out.append("c14who.f%s = '%s'" % (fid, cell))
+    out.append(('bind', 'c14who', 'f%s' % fid, cell))
     for st in f['stmts']:
       if st[0] == 'bind':
-        out.append("c14f.%s = '%s'" % (st[1], st[2]))
+        out.append(('bind', 'c14f', st[1], st[2]))
       elif st[0] == 'import':
-        out.append('import %s' % st[1])
-      else:
-        if not self.flatten(str(st[1]), out, stop):
-          return False
-    if self.case['unknown'] and fid == self.case.get('unknown_in', '0'):
-      out.append('c14_unknown_configurable.x = 1')
+        out.append(('import', st[1]))
+      elif not self.ops_file(str(st[1]), out):
+        return False
+    if self.holds_unknown(fid):
+      out.append(('unknown',))
     return True
+
+  def file_list(self):
+    """The files handed to the entry point, in order."""
+    if self.case['entry'] != 'files_and_bindings':
+      return ['0']
+    return {'two': ['0', 'S'], 'two-tuple': ['0', 'S'], 'one': ['0'], 'none': [], 'empty-list': []}[self.case['shape'] or 'two']
+
+  def all_ops(self):
+    """(complete, ops) for the whole call: the text's own imports / the files in order / the extra bindings."""
+    case, out = self.case, []
+    if case['entry'] == 'parse_config-with-include':
+      out.extend(('import', m) for m in case['text_imports'][0])
+    for fid in self.file_list():
+      if not self.ops_file(fid, out):
+        return False, out
+    if case['entry'] == 'parse_config-with-include':
+      out.extend(('import', m) for m in case['text_imports'][1])
+    if case['entry'] == 'files_and_bindings':
+      out.extend(EXTRA_OPS[case['extra']])
+      if self.holds_unknown('X'):
+        out.append(('unknown',))
+    return True, out
+
+  def extra_arg(self):
+    kind = self.case['extra']
+    lines = [line_of(op) for op in EXTRA_OPS[kind]] + ([UNKNOWN_LINE] if self.holds_unknown('X') else [])
+    return {'list': lines, 'tuple': tuple(lines), 'string': '\n'.join(lines) + '\n', 'none': None, 'empty-list': [], 'empty-string': ''}[kind]
 
   def tree(self, fid):
     f = self.case['files'][fid]
@@ -388,6 +504,13 @@ def run_case(ctx, case):
   if case.get('kind') == 'namespace-directory':
     return run_namespace_directory(ctx, case)
   gin.clear_config()
+  # cases recorded before the extension wave (replays) lack the newer fields
+  for k, v in (('shape', 'two' if case['entry'] == 'files_and_bindings' else None), ('skip_arg', 'explicit'), ('print', False), ('decorator', [False] * case['nread']),
+               ('text_imports', [[], []]), ('extra', 'list'), ('unknown_in', '0')):
+    case.setdefault(k, v)
+  for fid, f in case['files'].items():
+    if f['kind'] in ('pkg-slash', 'pkg-dot') and case['place'][fid] == ['special']:
+      case['place'][fid] = [[0, 'pkg']]
   w = World(case)
   try:
     w.materialise()
@@ -400,14 +523,16 @@ def run_case(ctx, case):
 
 def _run(ctx, case, w, gin, gc):
   files = case['files']
+  entry = case['entry']
+  file_list = w.file_list()
   # ---- buckets
-  if depth_of(case) >= 3:
+  if file_list and depth_of(case) >= 3:
     ctx.bucket('tree:depth3+')
-  if case['twice']:
+  if file_list and case['twice']:
     ctx.bucket('tree:file-included-twice')
-  if case.get('same_text_twice'):
+  if file_list and case.get('same_text_twice'):
     ctx.bucket('tree:same-include-twice-in-one-text')
-  for fid, f in files.items():
+  for fid, f in (files.items() if file_list else ()):
     kinds = [st[0] for st in f['stmts']]
     if kinds.count('include') >= 2:
       ctx.bucket('tree:fanout2+')
@@ -435,26 +560,41 @@ def _run(ctx, case, w, gin, gc):
         ctx.bucket('search:memory-reader')
       if len([c for c in cells if str(c[0]) == l]) > 1:
         ctx.bucket('search:reader-order-decides')
+      if fid == 'S' and l != '0':
+        ctx.bucket('second-file:later-location')
+      if fid == 'S' and r.startswith('mem'):
+        ctx.bucket('second-file:memory-reader')
+      if r == 'pkg':
+        ctx.bucket('search:package-slash' if f['kind'] == 'pkg-slash' else 'search:package-dot')
+        if any(c[0] > 0 for c in cells):
+          ctx.bucket('search:package-reader-before-later-location')
+        if any(c[0] == 0 and c[1].startswith('mem') for c in cells):
+          ctx.bucket('search:package-reader-before-registered-reader')
+      if r == 'fs' and l == '0' and (0, 'pkg') in cells:
+        ctx.bucket('search:plain-file-before-package-reader')
     elif cell == 'abs':
       ctx.bucket('search:absolute-name')
-    elif cell == 'pkg':
-      ctx.bucket('search:package-slash' if f['kind'] == 'pkg-slash' else 'search:package-dot')
   if case['nloc'] >= 2:
     ctx.bucket('locations:3+')
   if case['nread'] == 2:
     ctx.bucket('readers:2')
+  if any(case['decorator']):
+    ctx.bucket('readers:decorator-form')
   ctx.fp(tuple(sorted((fid, f['kind'], tuple(st[0] for st in f['stmts'])) for fid, f in files.items())), case['nloc'], case['nread'],
-         tuple(sorted((k, len(v)) for k, v in case['place'].items())), case['missing'] is not None, case['entry'], case['unknown'])
+         tuple(sorted((k, len(v)) for k, v in case['place'].items())), case['missing'] is not None, entry, case['unknown'], case.get('shape'),
+         case['unknown_in'] if case['unknown_in'] in ('S', 'X') else 'tree')
 
-  # ---- expected: flattened text on a cleared config
-  flat = []
-  complete = w.flatten('0', flat, None)
+  # ---- expected: (a) the independent last-writer model over the statements in application order, (b) the flattened text on a cleared config
+  complete, ops = w.all_ops()
+  flat = [line_of(op) for op in ops]
+  model = model_store(ops)
   skip = {'skip': True, 'skip-list': ['c14_unknown_configurable', 'something_else'], 'list-without-it': ['something_else', 'c14_other']}.get(case['unknown'], False)
-  # is the file holding the unknown statement reached before a missing file stops the parse?
-  raises_unknown = case['unknown'] in ('raise', 'list-without-it') and any('c14_unknown_configurable' in l for l in flat)
+  # is the statement with the unknown name reached before a missing file stops the parse?
+  unknown_reached = ('unknown',) in ops
+  raises_unknown = case['unknown'] in ('raise', 'list-without-it') and unknown_reached
   if raises_unknown and not complete:
     return  # two faults in one tree (missing file and unknown name): which comes first is C16's subject
-  if case['unknown'] and case.get('unknown_in', '0') != '0' and any('c14_unknown_configurable' in l for l in flat):
+  if case['unknown'] and case['unknown_in'] not in ('0', 'S', 'X') and unknown_reached:
     ctx.bucket('unknown:in-included-file')
   gin.clear_config()
   exp_exc = None
@@ -465,37 +605,51 @@ def _run(ctx, case, w, gin, gc):
   expected_store = snap.store_nonempty(gc)
   expected_imports = sorted({s.module for s in gc._IMPORTS})
   gin.clear_config()
-  ctx.sample({'files': {k: {'name': w.names[k], 'stmts': v['stmts']} for k, v in list(files.items())[:4]}, 'flattened': flat[:12], 'entry': case['entry']}, cap=3)
+  ctx.sample({'files': {k: {'name': w.names[k], 'stmts': v['stmts']} for k, v in list(files.items())[:4]}, 'flattened': flat[:12], 'entry': entry}, cap=3)
 
   # ---- run the real thing
-  entry = case['entry']
   ctx.bucket('entry:' + entry)
   top = w.names['0']
-  exc, res = None, None
+  exc, res, own_imports = None, None, None
+  kw = {}
+  # nothing to skip and the generator says so: leave skip_unknown at its DEFAULT (which must mean: unknown names are errors)
+  skip_by_default = skip is False and case['skip_arg'] == 'default'
+  if not skip_by_default:
+    kw['skip_unknown'] = skip
+  if case['print'] and entry != 'parse_config-with-include':
+    kw['print_includes_and_imports'] = True             # only prints; everything below must hold all the same
+    ctx.bucket('print-flag:' + entry)
+  _S['hook_seen'] = []
+  _S['hook_on'] = True
   try:
     if entry == 'parse_config_file':
-      res = gin.parse_config_file(top, skip_unknown=skip)
+      res = gin.parse_config_file(top, **kw)
     elif entry == 'files_and_bindings':
       ctx.bucket('finalize:true' if case['finalize'] else 'finalize:false')
-      second = os.path.join(w.base, 'second_file.gin')
-      open(second, 'w').write("c14f.a = 'second-file'\nc14f.c = 'second-file-c'\n")
-      extra = {'list': ["c14f.c = 'extra-binding'"], 'none': None, 'empty-list': [], 'empty-string': '', 'string': "c14f.b = 'overridden-next-line'\nc14f.c = 'extra-binding'\n"}[case.get('extra', 'list')]
-      ctx.bucket('extra-bindings:' + case.get('extra', 'list'))
+      shape = case['shape'] or 'two'
+      ctx.bucket('files-arg:' + shape)
+      names = [w.names[fid] for fid in file_list]
+      files_arg = {'two': names, 'two-tuple': tuple(names), 'one': names, 'none': None, 'empty-list': []}[shape]
+      ctx.bucket('extra-bindings:' + case['extra'])
       if case.get('finalize_default') and case['finalize']:
-        ctx.bucket('finalize:default')
-        res = gin.parse_config_files_and_bindings([top, second], extra, skip_unknown=skip)       # finalize_config defaults to True
+        ctx.bucket('finalize:default')                  # finalize_config defaults to True
       else:
-        res = gin.parse_config_files_and_bindings([top, second], extra, finalize_config=case['finalize'], skip_unknown=skip)
+        kw['finalize_config'] = case['finalize']
+      res = gin.parse_config_files_and_bindings(files_arg, w.extra_arg(), **kw)
     else:
-      inc, imp = gin.parse_config("include '%s'\n" % top, skip_unknown=skip)
+      text = ''.join('import %s\n' % m for m in case['text_imports'][0]) + "include '%s'\n" % top + ''.join('import %s\n' % m for m in case['text_imports'][1])
+      inc, own_imports = gin.parse_config(text, **kw)
       res = inc
   except Exception as e:  # pylint: disable=broad-except
     exc = e
+  finally:
+    _S['hook_on'] = False
+  hook_seen = _S['hook_seen']
   got_store = snap.store_nonempty(gc)
   ctx.count('flattened_compared')
 
   if not complete:
-    ctx.bucket('missing:top-level' if w.chosen_cell('0') is None else 'missing:include')
+    ctx.bucket('missing:top-level' if w.chosen_cell('0') is None else ('missing:second-file' if str(case['missing']) == 'S' else 'missing:include'))
     missing_name = w.names[str(case['missing'])]
     if not ctx.check(isinstance(exc, IOError), 'missing-file-not-IOError', 'file %r unreadable: got %r' % (missing_name, exc)):
       return
@@ -504,42 +658,78 @@ def _run(ctx, case, w, gin, gc):
     want_locs = [''] if os.path.isabs(missing_name) else w.locs
     ctx.check(repr(want_locs) in msg or all(repr(l) in msg for l in want_locs), 'missing-file-error-without-searched-locations',
               'IOError text %r does not list the searched locations %r' % (msg[:400], want_locs))
+    if os.path.isabs(missing_name) and len(w.locs) > 1:
+      # an absolute name bypasses the search locations: none of them is searched (so none is named as searched), and a reader is not asked
+      # for the very same absolute name once per location
+      ctx.bucket('search:absolute-missing-with-locations')
+      named = [l for l in w.locs[1:] if repr(l) in msg]
+      ctx.check(not named, 'absolute-name-searched-through-locations', 'IOError for the absolute name %r lists registered search locations %r as searched: %r' %
+                (missing_name, named, msg[:400]))
+      for k, asked in enumerate(w.asked):
+        ctx.check(asked.count(missing_name) <= 1, 'absolute-name-searched-through-locations',
+                  'registered reader %d was asked %d times for the one absolute name (once per search location?)' % (k, asked.count(missing_name)))
     ctx.check(got_store == expected_store, 'missing-file-store-not-prefix', 'store after the failed include differs from the prefix: %r' % (snap.diff(got_store, expected_store),))
+    ctx.check(got_store == model, 'missing-file-store-not-prefix', 'store after the unreadable file differs from the statements applied before it (last-writer model): %r' %
+              (snap.diff(got_store, model),))
     return
+  where = {'S': 'second-file', 'X': 'extra-bindings'}.get(case['unknown_in']) if case['unknown'] and unknown_reached else None
   if raises_unknown:
     ctx.bucket('unknown:raises' if case['unknown'] == 'raise' else 'unknown:raises-not-in-list')
-    ctx.check(isinstance(exc, ValueError) and exp_exc == 'unknown', 'unknown-name-not-an-error', 'unknown configurable without skip_unknown: got %r' % (exc,))
+    if where:
+      ctx.bucket('unknown:in-%s:raises' % where)
+    if skip_by_default:
+      ctx.bucket('unknown:raises-by-default:' + entry)
+    ctx.check(isinstance(exc, ValueError) and exp_exc == 'unknown', 'unknown-name-not-an-error',
+              'unknown configurable (in %s) %s: got %r' % (where or 'file ' + case['unknown_in'], 'with skip_unknown left at its default' if skip_by_default else 'with skip_unknown=%r' % (skip,), exc))
     return
-  if case['unknown'] in ('skip', 'skip-list'):
+  if case['unknown'] in ('skip', 'skip-list') and unknown_reached:
     ctx.bucket('unknown:skipped' if case['unknown'] == 'skip' else 'unknown:skipped-by-list')
+    if where:
+      ctx.bucket('unknown:in-%s:skipped' % where)
   if not ctx.check(exc is None, 'unexpected-exception', '%s raised %s: %s' % (entry, type(exc).__name__, str(exc)[:400])):
     return
   if entry == 'files_and_bindings':
-    expected_store = dict(expected_store)
-    d = dict(expected_store.get(('', 'c14.c14f'), {}))
-    d['a'] = canon('second-file')       # files in the order given ...
-    if case.get('extra', 'list') in ('list', 'string'):
-      d['c'] = canon('extra-binding')     # ... then the extra bindings
-    else:
-      d['c'] = canon('second-file-c')     # no extra bindings given (None / [] / ''): the files alone, and still finalized
-    if case.get('extra') == 'string':
-      d['b'] = canon('overridden-next-line')
-    expected_store[('', 'c14.c14f')] = d
     ctx.check(gin.config_is_locked() == bool(case['finalize']), 'finalize-flag-ignored', 'finalize_config=%s but locked=%s' % (case['finalize'], gin.config_is_locked()))
+    # "then finalizes": the finalize hooks run exactly once, and what they are shown is the configuration after the files AND the extra bindings
+    if case['finalize']:
+      if ctx.check(len(hook_seen) == 1, 'finalize-hooks-not-run-once', 'finalize_config on: the registered finalize hook ran %d times' % len(hook_seen)):
+        if file_list and EXTRA_OPS[case['extra']]:
+          ctx.bucket('finalize:hook-saw-files-and-extra-bindings')
+        ctx.check(hook_seen[0] == model, 'finalize-hook-saw-other-config',
+                  'the finalize hook was shown a configuration other than files + extra bindings: %r' % (snap.diff(hook_seen[0], model),))
+    else:
+      ctx.bucket('finalize:hook-not-run-when-told-not-to')
+      ctx.check(not hook_seen, 'finalize-hooks-run-although-told-not-to', 'finalize_config=False, yet the finalize hook ran %d times' % len(hook_seen))
   ctx.check(got_store == expected_store, 'store-differs-from-flattened-text',
             'store after %s differs from parsing the flattened text: %r' % (entry, snap.diff(got_store, expected_store)), {'flattened': flat})
+  writers = {}
+  for op in ops:
+    if op[0] == 'bind' and op[1] == 'c14f':
+      writers.setdefault(op[2], set()).add(op[3].split(':')[0])
+  if any(len(v) > 1 for v in writers.values()):
+    ctx.bucket('model:last-writer-overrides-across-files')
+  ctx.check(got_store == model, 'store-differs-from-last-writer-model',
+            'store after %s differs from the last writer of each parameter in application order: %r' % (entry, snap.diff(got_store, model)), {'flattened': flat})
   ctx.check(sorted({s.module for s in gc._IMPORTS}) == expected_imports, 'imports-differ-from-flattened', 'recorded imports %r vs flattened %r' %
             (sorted({s.module for s in gc._IMPORTS}), expected_imports))
   # ---- returned tree
   ctx.count('trees_compared')
-  want = w.tree('0')
   if entry == 'parse_config_file':
-    got = as_tree(res)
-  elif entry == 'files_and_bindings':
-    got = as_tree(res[0]) if len(res) == 2 and as_tree(res[1])[0].endswith('second_file.gin') else None
+    got, want = as_tree(res), w.tree('0')
   else:
-    got = as_tree(res[0]) if len(res) == 1 else None
+    # a list with one tree per file given (none: an empty list) / per include statement of the text
+    want = [w.tree(fid) for fid in file_list]
+    try:
+      got = [as_tree(x) for x in res]
+    except (TypeError, AttributeError):
+      got = res
   ctx.check(got == want, 'returned-tree-differs', 'returned include/import tree %r, expected %r' % (got, want))
+  if entry == 'parse_config-with-include':
+    want_own = case['text_imports'][0] + case['text_imports'][1]
+    if want_own:
+      ctx.bucket('text:own-imports')
+    ctx.check(list(own_imports) == want_own, 'returned-imports-of-the-text-differ',
+              "parse_config returned imports %r for a text with the import statements %r around its include" % (own_imports, want_own))
   gin.clear_config()
 
 
